@@ -670,9 +670,11 @@ def sei_line(om, omz, fc, every, segs, parts):
     return " ".join(t)
 
 
-def gen_sheet(rng, n):
+def gen_sheet(rng, n, omz_differs=None):
     om = rng.choice([1.0, 0.5, 2.0 * math.pi])
-    omz = om * rng.uniform(0.8, 1.3) if rng.chance(0.5) else om
+    if omz_differs is None:
+        omz_differs = rng.chance(0.5)
+    omz = om * rng.uniform(0.8, 1.3) if omz_differs else om
     G = rng.choice([0.0, 1e-6, 1e-4])
     parts = [[rng.loguniform(1e-4, 1e-2)] + [rng.uniform(-5, 5), rng.uniform(-5, 5), rng.uniform(-0.5, 0.5)] + [rng.normal() * 0.2 * om for _ in range(3)]
              for i in range(n)]
@@ -1282,25 +1284,25 @@ def configure(s, variant):
         s.ri_eos.safe_mode = 1
 
 
-def gen_fc_sym(rng, G, parts, variant):
+def gen_fc_sym(rng, G, parts, variant, force=None):
     """configuration sweep for the rounding-level schemes: massless test particles (N_active < N),
     read-only pre/post callbacks, a velocity-independent additional force"""
     fc = mkfc(G)
     n = len(parts)
-    if n >= 3 and rng.chance(0.4):
+    if n >= 3 and (force == "tp" or (force is None and rng.chance(0.4))):
         fc["nactive"] = rng.randint(2, n - 1)
         for p in parts[fc["nactive"]:]:
             p[0] = 0.0
         if variant[0] == "leapfrog":
             fc["tptype"] = rng.randint(0, 1)
     cb = []
-    if rng.chance(0.25):
+    if force == "cb" or (force is None and rng.chance(0.25)):
         cb.append("pre")
-    if rng.chance(0.25):
+    if (force == "cb" and rng.chance(0.5)) or (force is None and rng.chance(0.25)):
         cb.append("post")
     fc["cb"] = tuple(cb)
-    if rng.chance(0.2):
-        fc["k"] = rng.loguniform(1e-3, 3e-2) * G
+    if force == "k" or (force is None and rng.chance(0.2)):
+        fc["k"] = rng.loguniform(1e-3, 3e-2) * (G or 1.0)
     return fc
 
 
@@ -1356,6 +1358,7 @@ def search_symmetric(c, R):
     worst_fam = {}
     cfgh = {}
     disc = 0
+    sw = 0
     for rep in range(reps):
         for variant in variants:
             moderate = rep % 2 == 1
@@ -1364,33 +1367,46 @@ def search_symmetric(c, R):
             P = inner_period(G, parts)
             dt = P / rng.choice([20, 40, 100]) * (1 if rng.chance(0.7) else -1)
             nst = rng.randint(50, 300) if moderate else rng.choice([50, 200, 500, nmax, rng.randint(20, nmax)])
-            if rng.chance(0.3):                   # G != 1: same orbits, velocities rescaled
+            sweep = (rep + variants.index(variant)) % 2 == 1
+            prim = None
+            if sweep:
+                # one primary dimension per swept case, in rotation (every dimension is reached in every run), plus random extras
+                prims = ["safe", "restore", "dtfac", "boost", "tp", "cb", "k", "var", "G"]
+                for _ in range(len(prims)):
+                    prim = prims[sw % len(prims)]
+                    sw += 1
+                    ok = {"safe": variant[0] != "leapfrog", "tp": n >= 3,
+                          "var": variant[0] == "leapfrog" or variant[:2] == ("whfast", "jacobi")}.get(prim, True)
+                    if ok:
+                        break
+            if prim == "G" or (sweep and rng.chance(0.15)):                   # G != 1: same orbits, velocities rescaled
                 G = rng.choice([4 * math.pi ** 2, 0.01])
                 for p in parts:
                     for k3 in (4, 5, 6):
                         p[k3] *= math.sqrt(G)
                 dt /= math.sqrt(G)
             G0 = G
-            sweep = rng.chance(0.5)
-            G = gen_fc_sym(rng, G0, parts, variant) if sweep else mkfc(G0)      # from here on G is the whole force configuration
+            G = gen_fc_sym(rng, G0, parts, variant, force=(prim if prim in ("tp", "cb", "k") else ("none" if prim else None))) if sweep else mkfc(G0)
             opts = {}
             if sweep:
-                if variant[0] != "leapfrog" and rng.chance(0.4):
+                if variant[0] != "leapfrog" and (prim == "safe" or rng.chance(0.2)):
                     opts["safe"] = 0
-                if rng.chance(0.25) and not G["cb"] and G["k"] == 0:
+                if (prim == "restore" or rng.chance(0.1)) and not G["cb"] and G["k"] == 0:
                     opts["turn"] = "restore"           # function pointers are not persisted
-                if rng.chance(0.3):
+                if prim == "dtfac" or rng.chance(0.15):
                     opts["dtfac"] = rng.choice([0.5, 0.7, 1.5])
-                if rng.chance(0.3):
+                if prim == "boost" or rng.chance(0.15):
                     opts["com"] = "boost"
                     off = [rng.normal() * 2 for _ in range(3)] + [rng.normal() * 0.2 * math.sqrt(G0) for _ in range(3)]
                     for p in parts:
                         for k3 in range(6):
                             p[1 + k3] += off[k3]
-                if (variant[0] == "leapfrog" or variant[:2] == ("whfast", "jacobi")) and G["nactive"] == -1 and rng.chance(0.5):
-                    opts["var"] = True
+            if (variant[0] == "leapfrog" or variant[:2] == ("whfast", "jacobi")) and G["nactive"] == -1 and (sweep or rng.chance(0.5)):
+                opts["var"] = True             # the only two schemes of the family with variational equations
             if G["k"] != 0:
                 nst = min(nst, 150)
+            if opts.get("com") == "boost":
+                nst = min(nst, 1000)      # |x| grows with t: the force loses eps*|x|/|dx| per step, the bound is calibrated for bounded |x|
             cfgh[str(fc_class(G)[:4])] = cfgh.get(str(fc_class(G)[:4]), 0) + 1
             d0, d1, d2 = roundtrip(R, G, parts, variant, dt, nst, opts)
             n = len(d0) // 6                       # variational particles included
@@ -1461,12 +1477,12 @@ def sei_roundtrip(R, om, omz, fc, parts, dt, nst, opts):
 
 
 def search_sei(c, R, rng, worst):
-    reps = 24 if c.thorough else 10
+    reps = 40 if c.thorough else 20
     nmax = 10000 if c.thorough else 1000
     shear_g = []
     for rep in range(reps):
         n = rng.randint(2, 8)
-        om, omz, G, parts = gen_sheet(rng, n)
+        om, omz, G, parts = gen_sheet(rng, n, omz_differs=(rep % 2 == 1))
         opts = {}
         kind = rep % 5
         if kind == 1:
@@ -1486,10 +1502,14 @@ def search_sei(c, R, rng, worst):
             else:
                 G = G or 1e-6
         fc = gen_fc_sym(rng, G, parts, ("leapfrog",)) if (rng.chance(0.5) and not opts.get("shear") and opts.get("turn") != "restore") else mkfc(G)
+        fc["k"] = 0.0     # a harmonic force on top of Hill's equations is linearly unstable (e-folding within the run): not a test of the integrator
         dt = (2 * math.pi / om) / rng.choice([20, 50, 200]) * (1 if rng.chance(0.7) else -1)
         nst = rng.choice([50, 200, nmax])
-        if fc["k"] != 0 or opts.get("shear"):
+        if fc["k"] != 0:
             nst = min(nst, 200)
+        if opts.get("shear"):
+            dt = (2 * math.pi / om) / rng.choice([20, 50]) * (1 if dt > 0 else -1)
+            nst = 200                 # several shear times: every particle streams through the box
         d0, d1, d2, tmid = sei_roundtrip(R, om, omz, fc, parts, dt, nst, opts)
         e = relerr(d0, d2, n)
         if opts.get("shear") and kind == 4:
